@@ -77,6 +77,7 @@ class Trace:
         tick_now = 0
         auth_tick_pending = set()
         hash_state = {}
+        pre_pending, pre_published = {}, {}
         tickrecv = {}
         emitted = {}           # seq -> dict(ty, mode, step, connected, ent)
         stamps = {}            # (client, seq) -> stamp of the message sent to that client
@@ -111,6 +112,10 @@ class Trace:
                     self.add("C01", i, "undecodable or misaddressed message: %s" % l)
             if t[0] == "sop":
                 pending_sops.append(t[1:])
+            if t[0] == "cop" and t[2] == "prespawn":
+                pre_pending.setdefault(int(t[1]), []).append(int(t[3]))
+            if t[0] == "cframe":
+                pre_published.setdefault(int(t[1]), set()).update(pre_pending.pop(int(t[1]), []))
             if t[0] == "cop" and t[2] == "despawn":
                 pre_dead_pending.setdefault(int(t[1]), []).append(int(t[3]))
             if t[0] == "cop" and t[2] == "ev":
@@ -226,7 +231,7 @@ class Trace:
                         continue
                     if op[0] == "map":
                         c_, e_, pc_ = int(op[1]), int(op[2]), int(op[3])
-                        if c_ in authorized:
+                        if c_ in authorized and pc_ in pre_published.get(c_, ()):      # the script can only name entities the client has spawned and shown
                             maps[(c_, e_)] = pc_
                         continue
                     if op[0] == "spawn":
@@ -291,6 +296,10 @@ class Trace:
                     f = l.split()
                     if f[0] == "evt" and f[2] == "PMISMATCH":
                         continue
+                    if f[0] == "evt" and (len(f) < 5 or "UNDECODABLE" in l):
+                        for p_ in ("C05", "C04"):
+                            self.add(p_, i, "the server sent client %s an event message that does not decode to the event that was written: %s" % (f[1], l))
+                        continue
                     if f[0] == "evt":
                         c, ty, sq = int(f[1]), f[2], int(f[4].split(":")[0])
                         tk = f[3][2:]
@@ -324,6 +333,10 @@ class Trace:
                                     self.add("C05", i, "client event %d carries entity %s, the client meant %s" % (sq, parts[2] if len(parts) > 2 else None, ce["ent"]))
                 for l in block:
                     f = l.split()
+                    if f[0] in ("upd", "mut") and "UNDECODABLE" in l:
+                        for p_ in ("C01", "C02", "C03"):
+                            self.add(p_, i, "the server sent a replication message that cannot be decoded: %s" % l)
+                        continue
                     if f[0] in ("upd", "mut"):
                         c = int(f[1])
                         self.stats[f[0]] += 1
@@ -340,6 +353,13 @@ class Trace:
                             for k, v in comps.items():
                                 if e in view and view[e].get(k) != v:
                                     self.add("C02", i, "message carries a value that is not the server's current value: entity %d kind %d %s" % (e, k, l))
+                        if f[0] == "upd":
+                            des = kv_field(l, "des")
+                            for e_ in ([] if des in (None, "-") else [int(x) for x in des.split(";")]):
+                                if e_ in view and e_ not in body:
+                                    why = ("client %d is told to despawn entity %d, which the server still replicates to it at this tick and does not send again: %s" % (c, e_, l))
+                                    for p_ in ("C01", "C03", "C08"):
+                                        self.add(p_, i, why)
                         if f[0] == "mut":
                             muts_this_tick.setdefault(c, []).append(list(body))
                             self.stats["entities_in_mut"] += len(body)
